@@ -175,6 +175,24 @@ Example c11_refill_variant_resurrects_names :
   /\ names (boxes (run_env st [EDeliver false; ERestart; EDeliver true])) = map S_ ["INBOX"; "Sent"; "Drafts-2023"; "Trash"; "Spam"]%string.
 Proof. vm_compute. repeat split; reflexivity. Qed.
 
+(** regression (seeded change C11-5): the trailing separator of a CREATE argument is removed
+    before the INBOX / Roles / exists tests.  CREATE inbox/, "Inbox/", Roles/, Sent/ are refused and
+    change nothing, INBOX// creates the name INBOX/, and model = spec on all of them; a variant that
+    tests first and strips afterwards would insert a second mailbox "inbox" *)
+Example c11_create_strips_separator_first :
+  forallb (fun a => match run_cmd init_store (CCreate (S_ a)) with
+                    | (st, RNo, _) => list_eqb str_eqb (names (boxes st)) (names (boxes init_store))
+                    | _ => false end
+                    && refines_at init_store (CCreate (S_ a)))
+          ["inbox/"; """Inbox/"""; "INBOX/"; "Roles/"; "Sent/"; "/"]%string = true
+  /\ names (boxes (fst (fst (run_cmd init_store (CCreate (S_ "INBOX//"))))))
+     = map S_ ["INBOX"; "Sent"; "Drafts"; "Trash"; "Spam"; "INBOX/"]%string
+  /\ refines_at init_store (CCreate (S_ "INBOX//")) = true
+  /\ (let n0 := S_ "inbox/" in
+      negb (str_eqb (to_upper n0) INBOX) && negb (exists_box (boxes init_store) n0)
+      && negb (exists_box (boxes init_store) (trim_suffix n0 [delim]))) = true.
+Proof. vm_compute. repeat split; reflexivity. Qed.
+
 (** ---- no finding class is left: every class C11 ever listed has been repaired in /repo ---- *)
 (** the witnesses of the classes repaired in fix wave 3 (rename_into_child, rename_leading_slash,
     rename_partial, inbox_rename_orphan, protected_case, inbox_twin, roles_shadow, lsub_persists,
